@@ -256,6 +256,20 @@ func (w *walker) walk(v reflect.Value) string {
 			reflect.Copy(reflect.ValueOf(b), v)
 			return "(bytes " + hx(b) + ")"
 		}
+		if fast2d[reflect.SliceOf(t.Elem())] {
+			// arrayEncoder writes toSlice(array) through writeSlice: the 2-D fast path applies, a nil row is "a{}"
+			var sb strings.Builder
+			sb.WriteString("(slice")
+			for i := 0; i < v.Len(); i++ {
+				if v.Index(i).IsNil() {
+					sb.WriteString(" (slice)")
+				} else {
+					sb.WriteString(" " + w.walk(v.Index(i)))
+				}
+			}
+			sb.WriteString(")")
+			return sb.String()
+		}
 		return w.seq("slice", v)
 	case reflect.Map:
 		if v.IsNil() {
